@@ -1,0 +1,210 @@
+//go:build verif
+
+package p2c
+
+import (
+	"context"
+	"encoding/json"
+	"errors"
+	"math"
+	"math/rand"
+	"reflect"
+	"strconv"
+	"sync/atomic"
+	"time"
+	"unsafe"
+
+	"github.com/gotid/god/lib/timex"
+	"google.golang.org/grpc/balancer"
+	"google.golang.org/grpc/balancer/base"
+	"google.golang.org/grpc/codes"
+	"google.golang.org/grpc/resolver"
+	"google.golang.org/grpc/status"
+)
+
+// Histories over several pickers built by ONE picker builder (the registered one is a process-wide object shared
+// by every ClientConn): {"multi":true,"start":ns,"ops":[{"op":"build","ready":[ids]} | {"op":"pick","p":i,...} |
+// {"op":"done","p":i,"k":j,...} | {"op":"adv","dt":ns}]}. After every step every live picker is dumped:
+// per tracked conn lag, inflight, success, requests, last, pick and the identity of its SubConn.
+
+type verifMultiOp struct {
+	verifOp
+	P     int   `json:"p"`     // pick/done: index of the picker (in Build order)
+	Ready []int `json:"ready"` // build: ids of the ready SubConns
+}
+
+type verifMultiCase struct {
+	Start int64          `json:"start"`
+	Ops   []verifMultiOp `json:"ops"`
+}
+
+type verifMultiStep struct {
+	verifStep
+	Pickers [][][]uint64 `json:"pickers"`
+	Builder string       `json:"builder"` // build: "registered" | "fresh"
+}
+
+// verifRegisteredPickerBuilder digs the base.PickerBuilder out of the balancer builder registered under Name
+// (base.baseBuilder.pickerBuilder); nil when the grpc internals do not look as expected.
+func verifRegisteredPickerBuilder() (pb base.PickerBuilder) {
+	defer func() {
+		if recover() != nil {
+			pb = nil
+		}
+	}()
+	b := balancer.Get(Name)
+	if b == nil {
+		return nil
+	}
+	v := reflect.ValueOf(b)
+	if v.Kind() != reflect.Ptr {
+		return nil
+	}
+	f := v.Elem().FieldByName("pickerBuilder")
+	if !f.IsValid() || !f.CanAddr() {
+		return nil
+	}
+	got, _ := reflect.NewAt(f.Type(), unsafe.Pointer(f.UnsafeAddr())).Elem().Interface().(base.PickerBuilder)
+	return got
+}
+
+type verifLive struct {
+	picker balancer.Picker
+	p      *p2cPicker // nil for the error picker
+	ids    map[balancer.SubConn]int
+	dones  []func(balancer.DoneInfo)
+	conns  []int // position of the conn of every done func
+}
+
+func verifMultiDump(live []*verifLive, all map[balancer.SubConn]int) [][][]uint64 {
+	out := make([][][]uint64, len(live))
+	for i, l := range live {
+		out[i] = [][]uint64{}
+		if l.p == nil {
+			continue
+		}
+		rows := verifDump(l.p)
+		for j, c := range l.p.conns {
+			id, ok := all[c.conn]
+			if !ok {
+				id = 1 << 20
+			}
+			rows[j] = append(rows[j], uint64(id))
+		}
+		out[i] = rows
+	}
+	return out
+}
+
+func verifMulti(raw json.RawMessage) any {
+	var c verifMultiCase
+	if err := json.Unmarshal(raw, &c); err != nil {
+		return map[string]any{"error": err.Error()}
+	}
+	timex.VerifSetNow(time.Duration(c.Start))
+	builder := verifRegisteredPickerBuilder()
+	which := "registered"
+	if builder == nil {
+		builder = new(p2cPickerBuilder)
+		which = "fresh"
+	}
+	scs := map[int]balancer.SubConn{}
+	all := map[balancer.SubConn]int{}
+	src := &verifSource{}
+	var live []*verifLive
+	steps := make([]verifMultiStep, 0, len(c.Ops))
+	for _, op := range c.Ops {
+		st := verifMultiStep{verifStep: verifStep{Idx: -1, ID: -1, Conn: -1}}
+		switch op.Op {
+		case "adv":
+			timex.VerifAdvance(time.Duration(op.Dt))
+		case "build":
+			ready := make(map[balancer.SubConn]base.SubConnInfo)
+			ids := map[balancer.SubConn]int{}
+			for _, id := range op.Ready {
+				sc, ok := scs[id]
+				if !ok {
+					sc = mockClientConn{id: "verif-m-" + strconv.Itoa(id)}
+					scs[id] = sc
+					all[sc] = id
+				}
+				ready[sc] = base.SubConnInfo{Address: resolver.Address{Addr: "10.1.0." + strconv.Itoa(id) + ":80"}}
+				ids[sc] = id
+			}
+			pk := builder.Build(base.PickerBuildInfo{ReadySCs: ready})
+			l := &verifLive{picker: pk, ids: ids}
+			if p, ok := pk.(*p2cPicker); ok {
+				p.r = rand.New(src)
+				l.p = p
+			}
+			live = append(live, l)
+			st.Builder = which
+		case "pick":
+			if op.P < 0 || op.P >= len(live) {
+				return map[string]any{"error": "pick: no such picker"}
+			}
+			l := live[op.P]
+			src.vals = src.vals[:0]
+			for _, d := range op.Draws {
+				src.vals = append(src.vals, d<<32)
+			}
+			src.pos, src.over = 0, 0
+			res, err := l.picker.Pick(balancer.PickInfo{FullMethodName: "/", Ctx: context.Background()})
+			st.Used, st.Over = src.pos, src.over
+			switch {
+			case err == nil:
+				if id, ok := all[res.SubConn]; ok {
+					st.ID = id
+				} else {
+					st.ID = 1 << 20
+				}
+				if l.p != nil {
+					for j, sc := range l.p.conns {
+						if sc.conn == res.SubConn {
+							st.Idx = j
+						}
+					}
+				}
+				l.dones = append(l.dones, res.Done)
+				l.conns = append(l.conns, st.Idx)
+			case errors.Is(err, balancer.ErrNoSubConnAvailable):
+				st.Err = "noconn"
+			default:
+				st.Err = "other"
+			}
+		case "done":
+			if op.P < 0 || op.P >= len(live) || op.K < 0 || op.K >= len(live[op.P].dones) {
+				return map[string]any{"error": "done: no such done func"}
+			}
+			l := live[op.P]
+			st.Conn = l.conns[op.K]
+			if l.p != nil && st.Conn >= 0 && st.Conn < len(l.p.conns) {
+				td := int64(timex.Now()) - atomic.LoadInt64(&l.p.conns[st.Conn].last)
+				if td < 0 {
+					td = 0
+				}
+				st.Td = td
+				st.WBits = math.Float64bits(math.Exp(float64(-td) / float64(decayTime)))
+			}
+			st.Code = op.Code
+			var err error
+			switch {
+			case op.Code == -1:
+			case op.Code == -2:
+				err = errors.New("plain")
+			default:
+				err = status.Error(codes.Code(op.Code), "verif")
+			}
+			l.dones[op.K](balancer.DoneInfo{Err: err, BytesSent: op.Flags&1 != 0, BytesReceived: op.Flags&2 != 0})
+		default:
+			return map[string]any{"error": "unknown op " + op.Op}
+		}
+		st.Now = int64(timex.Now())
+		if (op.Op == "pick" || op.Op == "done") && live[op.P].p != nil {
+			st.Stamp = int64(live[op.P].p.stamp.Load())
+		}
+		st.Pickers = verifMultiDump(live, all)
+		steps = append(steps, st)
+	}
+	return map[string]any{"multi": true, "steps": steps}
+}
